@@ -213,6 +213,7 @@ pub fn property() -> Property {
     subs.extend(super::c20e::subs());
     Property {
         id: "C20",
+        quick_mult: 24,
         rule: "the same logical matrix is materialised as DenseMatrix<f64>, ndarray::Array2<f64> in standard layout, Array2 in column-major layout (reversed_axes of the transpose) and nalgebra::DMatrix<f64>; every BaseMatrix / BaseVector / stats / high-order operation is run on all of them for shapes 1..8 x 1..8, the value classes of C03 (mixed, all-negative, all-equal, integers, large) and compatible / incompatible pairings, and compared with the textbook model (so also with each other); the C01 / C02 decomposition checks are re-run on the ndarray and nalgebra backends; the deterministic estimators are fitted on identical generated data on all three backends. non-trivial = non-square operand with mixed signs (matops), length >= 2 (vecops), dimension >= 2 or 3 (decompositions), every case (estimators); distinct = distinct serialised case",
         assumptions: vec![
             "variance / std along an axis are compared between backends (they share the one-pass default implementation, C03's known finding), not with the two-pass reference".into(),
